@@ -128,7 +128,10 @@ def main(tier):
         vacuity={'executions_with_discarded_success': 1,
                  'executions_using_check_par': 1,
                  'executions_with_two_results_in_flight': 1},
-        extra=conformance(tier))
+        extra=conformance(tier),
+        # the deep budgets of the thorough tier are bounded per scenario
+        # (reported under caps_hit)
+        max_execs=1000 if tier == 'thorough' else None)
 
 
 def replay(rec):
